@@ -54,7 +54,9 @@ def main():
     readme = os.path.join(sdir, "README.md")
     if os.path.exists(readme):
         meta["needs_to_manifest"] = "see README.md"
-    if meta["demo_changed"]["exit"] == 0:
+    if not meta["patch_applies"]:
+        meta["status"] = "PATCH DOES NOT APPLY to the current tree (rebase it by hand; keep patch.orig.diff): nothing below means anything"
+    elif meta["demo_changed"]["exit"] == 0:
         meta["status"] = ("neutralised: with the change applied to the CURRENT tree the demonstration passes, i.e. the change no longer breaks the "
                           "property (see NOTE.md in the seed directory if present); a check that stays silent is right")
     elif any(v["caught"] for v in meta["checks"].values()):
@@ -63,7 +65,7 @@ def main():
         meta["status"] = "MISSED"
     meta["what_i_ran"] = "harness/seed_eval.py %s %s %s" % (prop, os.path.relpath(sdir, VERIF), " ".join(checks))
     json.dump(meta, open(os.path.join(sdir, "meta.json"), "w"), indent=1)
-    print(json.dumps({"seed": meta["seed"], "suite": meta["suite_with_change"], "demo_clean": meta["demo_clean"]["exit"], "demo_changed": meta["demo_changed"]["exit"],
+    print(json.dumps({"seed": meta["seed"], "applies": meta["patch_applies"], "suite": meta["suite_with_change"], "demo_clean": meta["demo_clean"]["exit"], "demo_changed": meta["demo_changed"]["exit"],
                       "checks": {k: (v["caught"], v["first"][:120]) for k, v in meta["checks"].items()}}))
 
 
